@@ -68,6 +68,8 @@ def body_for(rng, types, it_expr_x, it_expr_y, it, kind, x="x"):
         t = types.fresh()
         k = rng.randint(-1, 3)
         cond = ["c", rng.choice(CMP_OPS), ["v", it], ["n", k]] if rng.random() < 0.6 else ["c", rng.choice(CMP_OPS), ["n", k], ["v", it]]
+        if rng.random() < 0.4:
+            cond = [rng.choice(["&&", "||"]), cond, ["c", ">", ["v", x], ["n", rng.randint(-3, 6)]]]
         body.append(["sig", "g", ["p", ["s", cond, ["b", "*", ["v", x], ["n", rng.randint(2, 5)]]], t]])
         body.append(["place", "lamp", "small-lamp", it_expr_x, it_expr_y, None])
         body.append(["set", "lamp", "enable", ["c", ">", ["v", "g"], ["n", rng.randint(0, 20)]]])
